@@ -17,7 +17,7 @@ fn gen(src: &mut Src, tier: Tier) -> Case {
     let node = gen_pattern(src, &cfg);
     let pat = Printer::print(&node, fl.mode);
     let mut hay_alpha: Vec<u32> = alpha.iter().copied().filter(|c| *c < 0x80).collect();
-    for extra in [0x73, 0x6B, 0x53, 0x4B, 0x00, 0x7F, 0x0A, 0x20, 0x5F, 0x30] {
+    for extra in [0x73, 0x6B, 0x53, 0x4B, 0x00, 0x7F, 0x0A, 0x20, 0x5F, 0x30, 0x5B, 0x7B, 0x40, 0x60, 0x5E, 0x7E] {
         if src.chance(1, 3) {
             hay_alpha.push(extra);
         }
@@ -92,7 +92,7 @@ pub fn variants() -> Vec<&'static Variant> {
 }
 
 pub fn run(ctx: &Ctx) -> i32 {
-    ctx.run_variant(&V, ctx.scale(60_000, 1_500_000));
+    ctx.run_variant(&V, ctx.scale(800_000, 12_000_000));
     ctx.finish(
         "exploration",
         "random ES patterns (incl. non-ASCII literals, U+017F/U+212A fold partners, surrogate escapes, \\p) x ASCII haystacks over all 128 bytes x every start <= len+1; both executors, both pipelines; oracle = differential find_from_ascii vs find_from. Non-trivial = a match exists and the pattern mentions a non-ASCII character or uses i.",
